@@ -77,6 +77,7 @@ inductive Fml where
   | storeFix (arr : String) (i v : Term)      -- `arr = store arr i v`
   | pulse (x : String) (f : String) (p : Term) (q : Int)   -- `forall x. ite (x = p) (f x = q) (f x = 0)`
   | reqSum (lhs rhs : Term)                   -- `(= (to_real lhs) (+ (to_real rhs) 0.0))`
+  | reqZero (lhs : Term)                      -- `(= (to_real lhs) 0.0)`
   | tracked (p : Nat) (a : Fml)               -- debug mode: `asst_<hex> => a`
 end
 
@@ -136,6 +137,7 @@ noncomputable def Fml.eval (ρ : Env) : Fml → Prop
   | .storeFix arr i v => ρ.a arr (i.eval ρ) = v.eval ρ
   | .pulse _ f p q => ∀ x : Int, (x = p.eval ρ → ρ.f f x = q) ∧ (x ≠ p.eval ρ → ρ.f f x = 0)
   | .reqSum lhs rhs => lhs.eval ρ = rhs.eval ρ
+  | .reqZero lhs => lhs.eval ρ = 0
   | .tracked p a => ρ.p p = true → a.eval ρ
 noncomputable def Fml.evalAll (ρ : Env) : List Fml → Prop
   | [] => True
@@ -224,6 +226,7 @@ def Fml.evalB (ρ : Env) : Fml → Bool
       let x := p.evalB ρ
       decide (ρ.f f x = q) && decide (ρ.f f (x - 1) = 0) && decide (ρ.f f (x + 1) = 0)
   | .reqSum lhs rhs => decide (lhs.evalB ρ = rhs.evalB ρ)
+  | .reqZero lhs => decide (lhs.evalB ρ = 0)
   | .tracked p a => !(ρ.p p) || a.evalB ρ
 def Fml.evalAllB (ρ : Env) : List Fml → Bool
   | [] => true
